@@ -144,3 +144,15 @@ def pose_matrix(x, y, z, yaw, pitch=0.0, roll=0.0):
          [sy * cp, sy * sp * sr + cy * cr, sy * sp * cr - cy * sr],
          [-sp, cp * sr, cp * cr]]
     return [R[0] + [x], R[1] + [y], R[2] + [z], [0.0, 0.0, 0.0, 1.0]]
+
+
+def plane_distance_ref(e, g):
+    """documented plane distance of two boxes given in ego coordinates, e / g = (x, y, yaw, w, l): RMS distance between corresponding
+    footprint corners over the ground truth's two corners nearest to the ego; None if the 2nd / 3rd nearest corners are within 1e-6."""
+    ce, cg = box_corners(*e), box_corners(*g)
+    order = sorted(range(4), key=lambda k: math.hypot(*cg[k]))
+    d = [math.hypot(*cg[k]) for k in order]
+    if d[2] - d[1] < 1e-6:
+        return None
+    a, b = order[0], order[1]
+    return math.sqrt(0.5 * ((ce[a][0] - cg[a][0]) ** 2 + (ce[a][1] - cg[a][1]) ** 2 + (ce[b][0] - cg[b][0]) ** 2 + (ce[b][1] - cg[b][1]) ** 2))
